@@ -103,3 +103,27 @@ def dtor_discipline(ck, P, X, rule, unit, rec, allowed, handing_back, must_reach
         ck.ob(rule, f.site("dtor reached"), bool(reach), "%s drops elements and %s" %
               (name, "reaches the destructor call in %s" % sorted(lm.fmt_key(k) for k in reach) if reach else "NEVER reaches a destructor call"))
     return holders
+
+
+def itr_removed_guards(ck, P, X, rule, unit, prefix):
+    """Iterator operations on the current element refuse (negative code / NULL) once that element was removed through the
+    iterator: <prefix>_itr_remove / _itr_get_data / _itr_set_data carry a bail-out guard on !itr->removed; _itr_remove sets the flag
+    and _itr_next clears it."""
+    import rules as _r
+    n = 0
+    for op in ("itr_remove", "itr_get_data", "itr_set_data", "itr_get_key"):
+        f = P.fn("%s_%s" % (prefix, op), unit, required=False)
+        if f is None:
+            continue
+        n += 1
+        ck.analysed(f)
+        gs = [g for g in _r.bailouts(f) if ("itr->removed", False) in g.cont_atoms]
+        ok = bool(gs) and all((isinstance(g.retval, int) and g.retval <= 0) for g in gs)
+        eff = [e for e in f.events() if e.kind in ("assign", "incdec", "call") and not (e.kind == "call" and e.callee is None and "m_logger" in str(e.e.get("fn")))
+               and e.kind != "call" or (e.kind == "call" and e.callee in ("clear_elem", "remove_node"))]
+        facts_ok = all(("itr->removed", False) in (X.facts(f, e, passed=True) or ()) for e in eff if e.kind != "call" or e.callee)
+        ck.ob(rule, f.site("refuses after removal"), ok and facts_ok,
+              "%s refuses when the current element was already removed (guard !itr->removed -> %s)" % (f.name, [g.retval for g in gs]) if ok and facts_ok else
+              "%s no longer tests itr->removed before acting: a second call on the same position operates on whatever node the stale slot designates" % f.name,
+              witness=[("drop_branch", f.unit, f.name, g.block) for g in gs])
+    return n
